@@ -400,7 +400,13 @@ type docGen struct {
 	inexact  bool // allow literals that must be rejected
 	mismatch bool // allow a value list under (Catalog)/(Map)
 	spacey   bool // random extra spaces between tokens
+	edgy     bool // half of the literals END IN AN ESCAPE / an exponent digit / a hexadecimal digit: the class "a literal whose last character could also be read another way, directly before a delimiter and before another literal of its kind on the same line"
 }
+
+// literals that end in each escape form (strings, runes), in an exponent digit, in a hexadecimal digit
+var litEdge = []string{`"\\"`, `"a\\"`, `"C:\\"`, `"\""`, `"a\""`, `"\\\""`, `"a\n"`, `"a\t"`, `"a\x5c"`, `"a\u005c"`, `"a\U0000005c"`, `"a\x22"`, `"a\u0022"`, `"'"`, `"a\\\\"`, `"\\n"`,
+	`'\\'`, `'\''`, `'\n'`, `'\x5c'`, `'\u005c'`, `'\U0000005c'`, `'\x27'`, `'"'`, `'\u0027'`,
+	"1.5e+10", "2.5E-3", "-1.0e+5", "0xff", "0xe", "0x1e5", "0xabcdef", "(1.0+2.0e+10i)", "(1.5e+3-2.5E-3i)"}
 
 func (g *docGen) pickLit(pool []string) string { return pool[g.r.intn(len(pool))] }
 
@@ -431,6 +437,9 @@ func (g *docGen) randomString() string {
 func (g *docGen) intrinsic() string {
 	if g.inexact && g.r.chance(1, 6) {
 		return g.pickLit(litInexact)
+	}
+	if g.edgy && g.r.chance(1, 2) {
+		return g.pickLit(litEdge)
 	}
 	switch g.r.intn(16) {
 	case 0, 1:
@@ -706,6 +715,11 @@ var coreTexts = []string{
 	`"\"`, `"\" abc"`, `"abc\"`, "\"abc\\\"\n", `"a\\"`, `"a\\\"`, `"\\\\\\\\\\\\\\\\\\\\`, `"`, `""`, `"""`, "\"a\nb\"", `"\x4"`, `"\x4g"`, `"\xZZ"`, `"\u12"`, `"\u123g"`, `"\U0001F600"`, `"\q"`, `"\0"`, `"\'"`,
 	"\t", "[\t](List)", "[ ]\t(List)", "\r\n", "[1,\r\n2](List)", "\x00", "\a", "\b", "\f", "\v", "\x1b", "\x7f", "\xff", "[\xff](List)", "\"\xff\"", "'\xff'", "\xc3\x28", "\xe2\x82", "é", "[é](List)",
 	"[1, 2](List)\n\n\n", "[1, 2](List)\n \n", "[1, 2](List) \n", "[1, 2](List)\n1", "[1, 2](List)\n\n[", "\n[1](List)", " [1](List)", "[  1  ,  2  ](  List  )",
+	// a literal ending in an escape / an exponent digit / a hexadecimal digit, directly before "]" "," ":" and before another literal of its kind on the line
+	`["\\", "x"](List)`, `["C:\\": "drive"](Catalog)`, `["a\\"](List)`, `["\\": "\\"](Map)`, `["a\"", "b"](List)`, `["a\"": "b\""](Map)`, `["\\\"", "\\"](Set)`, `["a\x5c", "b\u005c", "c"](List)`,
+	`['\\', '\''](List)`, `['\\': '\''](Map)`, `['\'', '"', '\\'](Stack)`, `['\x5c','\u0027']('\\')`, `["a\\",'\\',"\\"](Queue)`,
+	"[1.5e+10](List)", "[1.5e+10, 2.5E-3](List)", "[1.5e+10: 0xff](Map)", "[0xff](List)", "[0xe, 0x1e5](Array)", "[0x1e5: 1.0e+5](Catalog)", "[(1.0+2.0e+10i)](List)",
+	"[\n    \"C:\\\\\": \"drive\"\n    \"D:\\\\\": '\\\\'\n](Catalog)\n",
 	// accepted although Syntax.cdsn does not derive them (docs/C11.md, grammar versus real code)
 	"[ 1 : 2 , 3 : 4 ] ( Map ) ", "[](List)", "[   ](List)", "[\"a\tb\"](List)", "['\t'](List)", "[\"\\101\"](List)", "[\"\\x4F\"](List)",
 	"[\n    1\n\n    2\n](List)", "[\n    1\n    2\n\n](List)", "[\n    1,\n    2\n](List)", "[1,\n2](List)", "[1\n, 2](List)",
@@ -778,10 +792,24 @@ func genCdcnParse(prop string, seed uint64, tier, outDir string, count int) erro
 	for i := 0; i <= len(base); i++ {
 		texts = append(texts, text{strings.Join(base[:i], "") + "$" + strings.Join(base[i:], ""), "core-boundary"})
 	}
+	// diagnostics that name a token of every length around the 40-character truncation of Scanner.FormatToken
+	// (the class: sizes around a structural constant of the diagnostics): a misplaced literal whose raw text has
+	// 28 … 52 runes — plain string, string of escapes (its quoted form is much longer), string of two-byte runes
+	// (more bytes than runes), integer, hexadecimal — as a second value without a comma and where a type is expected
+	for n := 28; n <= 52; n++ {
+		esc := "\"" + strings.Repeat("\\\"", (n-2)/2) + strings.Repeat("a", (n-2)%2) + "\""
+		for _, tok := range []string{"\"" + strings.Repeat("a", n-2) + "\"", esc, "\"" + strings.Repeat("\u00e9", n-2) + "\"",
+			"1" + strings.Repeat("0", n-1), "0x" + strings.Repeat("f", n-2)} {
+			texts = append(texts, text{"[1 " + tok + "](List)", "core-length"})
+		}
+		texts = append(texts, text{"[1](" + "\"" + strings.Repeat("b", n-2) + "\"" + ")", "core-length"},
+			text{"[\n    1\n    2 " + "\"" + strings.Repeat("\u4e2d", n-2) + "\"" + "\n](List)\n", "core-length"})
+	}
 	ncore := len(texts)
 	for len(texts) < count+ncore {
 		g := &docGen{r: r.fork()}
 		g.spacey = g.r.chance(1, 3)
+		g.edgy = g.r.chance(1, 4)
 		roll := g.r.intn(100)
 		validShare, inexactShare, mutShare := 25, 15, 45 // C12: mostly malformed
 		if prop == "C11" {
